@@ -440,6 +440,8 @@ pub fn connect_spec(p: &Profile) -> BoxedStrategy<ConnectSpec> {
         3 => Just(vec![]),
         1 => Just(vec![Prop::RetainAvailable(1), Prop::UserProperty("a".into(), "b".into())]),
         1 => Just(vec![Prop::TopicAliasMaximum(0), Prop::WildcardSubAvailable(1), Prop::SubIdAvailable(1), Prop::SharedSubAvailable(0), Prop::SessionExpiry(77)]),
+        // string-valued CONNACK properties that are none of the client's business
+        1 => Just(vec![Prop::ResponseInfo("resp/base".into()), Prop::ServerReference("other:1883".into()), Prop::ReasonString("ok".into()), Prop::TopicAliasMaximum(10)]),
     ];
     (handshake(p), pct(p.keep_session_pct), rm, mp, mq, extra, io_cfg(p))
         .prop_map(|(handshake, keep_session, receive_max, max_packet, max_qos, extra, io)| ConnectSpec {
@@ -475,8 +477,22 @@ pub fn conn_script(p: &Profile) -> BoxedStrategy<ConnScript> {
 }
 
 pub fn cfg(p: &Profile) -> BoxedStrategy<Cfg> {
-    (p.rx.0..=p.rx.1, p.tx.0..=p.tx.1, pct(p.downgrade_pct), prop::sample::select(p.keepalive.clone()), prop::sample::select(p.session_expiry.clone()), pct(p.unconditional_limits_pct))
-        .prop_map(|(rx, tx, downgrade, keepalive, session_expiry, unconditional_limits)| Cfg { rx, tx, downgrade, keepalive, session_expiry, unconditional_limits, ..Cfg::default() })
+    // user name / password: absent, present, and the legal oddities (empty password, empty user name)
+    let auth = prop::sample::select(vec![
+        None,
+        None,
+        None,
+        None,
+        Some(("user".to_string(), b"pw".to_vec())),
+        Some(("user".to_string(), Vec::new())),
+        Some((String::new(), vec![0u8, 255])),
+    ]);
+    (p.rx.0..=p.rx.1, p.tx.0..=p.tx.1, pct(p.downgrade_pct), prop::sample::select(p.keepalive.clone()), prop::sample::select(p.session_expiry.clone()), pct(p.unconditional_limits_pct), auth)
+        .prop_map(|(rx, tx, downgrade, keepalive, session_expiry, unconditional_limits, auth)| {
+            // (the CONNECT must still fit a small transmit arena)
+            let auth = if tx >= 64 { auth } else { None };
+            Cfg { rx, tx, downgrade, keepalive, session_expiry, unconditional_limits, auth, ..Cfg::default() }
+        })
         .boxed()
 }
 
